@@ -423,6 +423,19 @@ fn keep_alive(rng: &mut Rng, fixed: Option<(u64, Option<u64>)>) -> Case {
         events.push((g, Act::Gate(0, 1)));
         idle_from = g;
     }
+    // or: request 0 is a chunked upload whose handler answers at once without reading it; the body
+    // arrives later and is drained; the idle period (and the keep-alive time) starts after that
+    let drained_upload = !slow && rng.chance(1, 3) && cfg.keep_alive_s.is_some();
+    if drained_upload {
+        progs[0].read = crate::world::svc::ReadMode::Ignore;
+        events.clear();
+        events.push((0, Act::Push(b"POST /r0 HTTP/1.1\r\nHost: t\r\nTransfer-Encoding: chunked\r\n\r\n5\r\nhello\r\n".to_vec())));
+        let t1 = grid(rng.range(100, 700) as u64);
+        let t2 = t1 + grid(rng.range(100, 700) as u64);
+        events.push((t1, Act::Push(b"6\r\n world\r\n".to_vec())));
+        events.push((t2, Act::Push(b"0\r\n\r\n".to_vec())));
+        idle_from = t2;
+    }
     // optionally a second request well inside the first keep-alive period: the timer restarts
     let mut n_before = 1usize;
     if rng.chance(1, 3) && cfg.keep_alive_s.is_some() && k >= 2 {
@@ -447,7 +460,7 @@ fn keep_alive(rng: &mut Rng, fixed: Option<(u64, Option<u64>)>) -> Case {
         progs,
         events,
         horizon_ms: horizon,
-        params: json!({"idle_from_ms": idle_from, "next_request_ms": next_abs, "requests_before_gap": n_before, "first_response_by_ms": idle_from, "slow_response": slow, "ordering": ord}),
+        params: json!({"idle_from_ms": idle_from, "next_request_ms": next_abs, "requests_before_gap": n_before, "first_response_by_ms": idle_from, "slow_response": slow, "drained_upload": drained_upload, "ordering": ord}),
     }
 }
 
@@ -493,7 +506,7 @@ fn graceful(rng: &mut Rng, phase_fixed: Option<&'static str>) -> Case {
     let mut cfg = ConnCfg::persistent();
     cfg.shutdown_gate = Some(7);
     cfg.disc_timeout_ms = *rng.pick(&[0u64, 1000]);
-    let phase = phase_fixed.unwrap_or_else(|| *rng.pick(&["idle", "partial-head", "handler", "body", "queued", "between-requests"]));
+    let phase = phase_fixed.unwrap_or_else(|| *rng.pick(&["idle", "partial-head", "handler", "body", "queued", "between-requests", "upload", "upload"]));
     let sig = grid(rng.range(200, 1500) as u64);
     let mut events: Vec<(u64, Act)> = vec![];
     let mut progs = vec![];
@@ -516,6 +529,25 @@ fn graceful(rng: &mut Rng, phase_fixed: Option<&'static str>) -> Case {
                 all.extend_from_slice(&req(2));
                 events.push((t1.max(events[0].0), Act::Push(all)));
             }
+        }
+        "upload" => {
+            // the handler is reading a request body when the signal fires; the rest of the body
+            // arrives afterwards and must still reach it: the in-flight request is answered
+            progs.push(Prog::default());
+            let chunked = rng.chance(1, 2);
+            let head: &[u8] = if chunked { b"POST /r0 HTTP/1.1\r\nHost: t\r\nTransfer-Encoding: chunked\r\n\r\n5\r\nhello\r\n" } else { b"POST /r0 HTTP/1.1\r\nHost: t\r\nContent-Length: 11\r\n\r\nhello" };
+            let rest: &[u8] = if chunked { b"6\r\n world\r\n0\r\n\r\n" } else { b" world" };
+            events.push((grid(rng.range(0, (sig - 50) as usize) as u64), Act::Push(head.to_vec())));
+            // in one or two pieces after the signal
+            let t = sig + grid(rng.range(50, 800) as u64);
+            if rng.chance(1, 2) {
+                let k = rng.range(1, rest.len() - 1);
+                events.push((t, Act::Push(rest[..k].to_vec())));
+                events.push((t + grid(rng.range(50, 400) as u64), Act::Push(rest[k..].to_vec())));
+            } else {
+                events.push((t, Act::Push(rest.to_vec())));
+            }
+            respond_after.push(0);
         }
         "body" => {
             // head and first chunk written before the signal, the rest after
@@ -617,7 +649,7 @@ pub fn run(ctx: &Ctx, rep: &mut Reporter) {
         eval_case(&case, rep);
         let ord = match case.kind {
             "slow-head" => format!("{}|never={}|blocked={}", rel(case.params["head_complete_ms"].as_u64().unwrap_or(0), case.cfg.req_timeout_ms.max(1)), case.params["head_never_completes"], case.params["shutdown_blocked"]),
-            "keep-alive" => format!("{}|slow={}|n={}", case.params["ordering"].as_str().unwrap_or(""), case.params["slow_response"], case.params["requests_before_gap"]),
+            "keep-alive" => format!("{}|slow={}|drained={}|n={}", case.params["ordering"].as_str().unwrap_or(""), case.params["slow_response"], case.params["drained_upload"], case.params["requests_before_gap"]),
             "disconnect" => case.params["trigger"].as_str().unwrap_or("").to_string(),
             _ => format!("{}|same-poll={}|late-request={}", case.params["phase"].as_str().unwrap_or(""), case.params["same_poll_request"], case.events.iter().filter(|e| matches!(e.1, Act::Push(_)) && e.0 > case.params["signal_ms"].as_u64().unwrap_or(0)).count()),
         };
